@@ -2,7 +2,7 @@
 import itertools
 import json
 
-from vlib.valuecheck import build_cases, evaluate, replay, site_schema  # noqa: F401
+from vlib.valuecheck import build_cases, evaluate, replay, site_schema, collide_root  # noqa: F401
 from vlib.kitchen import run_cases, json_eq, Docs
 
 PROPS_FILE = "Props/C08.v"
@@ -11,8 +11,10 @@ LISTS = {
     "bool": [True], "mixed": ["a", 1, True, 2.5], "null-mixed": ["a", None, 1], "null-first": [None, "x", "y"], "strnum": ["1", "2"],
     "bool-and-its-spelling": [True, False, "true", "false"], "num-and-its-spelling": [1, 2, "1", "2"], "null-and-its-spelling": [None, "<nil>", "null"],
     "repeated": ["a", "b", "a"],
+    # values whose rendering as Go literals / constant names is delicate
+    "percent": ["50%discount", "100% sure", "%d", "a%sb%"], "escapes": ["a\"b", "back\\slash", "tab\there", "new\nline", "uni\u00e9", "`tick`", "$x{y}"],
 }
-TYPES = {"str": "string", "str1": "string", "str5": "string", "int": "integer", "int2": "integer", "num": "number", "bool": "boolean", "strnum": "string"}
+TYPES = {"str": "string", "str1": "string", "str5": "string", "int": "integer", "int2": "integer", "num": "number", "bool": "boolean", "strnum": "string", "percent": "string", "escapes": "string"}
 
 
 def systematic():
@@ -44,6 +46,10 @@ def systematic():
                 else:
                     root = {"type": "object", "properties": {"o": {"type": "object", "properties": {"e": e}, "required": ["e"]}}}
                 out.append(root)
+    # inline enum types whose Go names collide
+    for a, b in ((["a", "b"], ["b", "c"]), ([1, 2], [2, 3]), (["x"], ["x", "y"])):
+        out.append(collide_root({"enum": a}, {"enum": b}, key="e"))
+        out.append(collide_root({"type": "string" if isinstance(a[0], str) else "integer", "enum": b}, {"type": "string" if isinstance(a[0], str) else "integer", "enum": a}, key="e", required=True))
     return out
 
 
